@@ -341,6 +341,62 @@ def gen_blocking(seed, ncases):
     return cases
 
 
+# ---------------------------------------------------------------- two (or three) blocked poppers and a pusher
+POP_PHASES = [13, 37, 71]          # ms offsets (mod 100) of the background poppers' tickers; foreground = 0
+PUSH_PHASES = [7, 23, 41, 91]      # pushes never coincide with a tick, a timer or the watchdog (x+50)
+
+
+def gen_two_poppers(seed, ncases):
+    """connection 0 blocks in BLPOP/BRPOP; connections 1.. block too, their tickers out of phase;
+    another connection pushes n elements at chosen instants.  Instants are chosen so that no two
+    events coincide and no push falls into the last polling period before a popper's timeout."""
+    r = random.Random(seed * 32452843 + 5)
+    cases = []
+    for ci in range(ncases):
+        c = LCase("c09p_%d_%d" % (seed, ci))
+        if r.random() < 0.2:
+            c.step([b"rpush", pick(r, [b"k", b"j"])] + [b"i%d" % i for i in range(r.randrange(1, 3))])
+        for rnd in range(r.randrange(1, 4)):
+            poppers = []                      # (start offset, timer offset or None)
+            def mk_pop():
+                timeout = r.choice([1, 2, 3, 3, 0])
+                ks = [pick(r, [b"k", b"k", b"j"]) for _ in range(r.randrange(1, 3))]
+                return [pick(r, [b"blpop", b"brpop"])] + ks + [str(timeout).encode()], timeout
+            fg, fg_to = mk_pop()
+            poppers.append((0, fg_to))
+            phases = r.sample(POP_PHASES, r.randrange(1, 3))
+            for ph in phases:
+                cmd, to = mk_pop()
+                d = 100 * r.randrange(0, 12) + ph
+                poppers.append((d, to))
+                c.bg(cmd, d, conn=1 + POP_PHASES.index(ph))
+            npush = r.randrange(0, 5)
+            used = set()
+            n = 0
+            for _ in range(npush):
+                for _try in range(30):
+                    d = 100 * r.randrange(0, 36) + pick(r, PUSH_PHASES)
+                    bad = d in used
+                    for (st, to) in poppers:
+                        if to and st + 1000 * to - 100 <= d <= st + 1000 * to:
+                            bad = True
+                    if not bad:
+                        break
+                else:
+                    continue
+                used.add(d)
+                vals = []
+                for _ in range(r.randrange(1, 4)):
+                    n += 1
+                    vals.append(b"e%d_%d" % (rnd, n) if r.random() < 0.85 else b"dup")
+                c.bg([pick(r, [b"rpush", b"lpush"]), pick(r, [b"k", b"k", b"j", b"other"])] + vals, d, conn=9)
+            c.step(fg)
+            c.step([b"lrange", b"k", b"0", b"-1"])
+            c.step([b"lrange", b"j", b"0", b"-1"])
+        cases.append(c)
+    return cases
+
+
 # ---------------------------------------------------------------- bounded-exhaustive
 ALPHABET = [
     ([b"rpush", b"k", b"a", b"b"], 0), ([b"lpush", b"k", b"a"], 0), ([b"rpush", b"j", b"a"], 0),
